@@ -181,7 +181,23 @@ def main(argv=None):
                     else:
                         run.extra.setdefault("failed_obligations_not_replayed", []).append(o.name)
             elif o.status in ("unknown", "error", None):
-                run.undecided.append(o)
+                # candidate counter-model without the quantified hypotheses; believed only if it replays natively
+                confirmed = False
+                if o.status == "unknown" and not isinstance(o, Cover) and len(run.violations) < 6:
+                    m = core.relaxed_model(o, 20)
+                    if m is not None:
+                        payload = mk_payload(run, mod, o, m)
+                        payload["solver_result"] = "unknown; candidate model found with quantified hypotheses dropped"
+                        path = write_replay(pid, o.name, payload)
+                        res = native_replay(pid, path)
+                        payload["native"] = res
+                        write_replay(pid, o.name, payload)
+                        if res.get("confirmed"):
+                            run.violations.append({"obligation": o.name, "replay": path, "confirmed": True})
+                            o.status = "failed"
+                            confirmed = True
+                if not confirmed:
+                    run.undecided.append(o)
         if run.extra.get("failed_obligations_not_replayed") and not run.violations and not run.known:
             o = [x for x in run.obls if x.status == "failed" and not isinstance(x, Cover)][0]
             handle_failure(run, mod, o, known)
